@@ -2,6 +2,7 @@
 pub mod engine;
 pub mod lens;
 pub mod registry;
+pub mod script;
 
 pub use generic_array;
 pub use generic_array::typenum;
